@@ -1,0 +1,5 @@
+//go:build !verif
+
+package piece
+
+func verifYield(point string) {}
